@@ -45,6 +45,10 @@ func main() {
 		monF.Close()
 		os.RemoveAll(work)
 	}
+	if mode == "crash" || mode == "crashreplay" || mode == "conc" || mode == "concreplay" {
+		// these modes account for every file operation / store call of a request line: monitors must not send requests of their own
+		h.mon.noProbes = true
+	}
 	if mode == "crash" || mode == "crashreplay" {
 		// crash-point enumeration on the directory store (file crash.go, build tag vfs: needs the FS shim overlay)
 		code := runCrash(h, mode, seed, n, impl)
